@@ -270,6 +270,11 @@ B("C14", "hex alt admits non-hex again", XMLF, "x[a-f0-9]{2}", "x[a-z0-9]{2}", "
 B("C14", "hex alt one or two digits", XMLF, "x[a-f0-9]{2}", "x[a-f0-9]{1,2}", "R1-xml")
 B("C14", "chr handler appends anyway", CHRF, "        except (ValueError, UnicodeEncodeError):\n            continue\n", "        except (ValueError, UnicodeEncodeError):\n            character = b\"?\"\n", "R4-chr")
 B("C14", "chr encodes with surrogatepass", CHRF, "character = chr(int(match.group(1))).encode()", "character = chr(int(match.group(1)) % 256).encode()", "R3-provenance")
+B("C14", "chr encodes lone surrogates instead of skipping them (seed u08)", CHRF, "character = chr(int(match.group(1))).encode()", 'character = chr(int(match.group(1))).encode("utf-8", "surrogatepass")', "R3-provenance")
+B("C14", "chr encodes with a replacing error handler", CHRF, "character = chr(int(match.group(1))).encode()", 'character = chr(int(match.group(1))).encode(errors="replace")', "R3-provenance")
+B("C14", "utf-16 text re-encoded as latin-1", CODF, 'match.group().decode("utf-16").encode("utf-8"),', 'match.group().decode("utf-16").encode("latin-1"),', "R3-provenance")
+N("C14", "chr names the default codec", CHRF, "character = chr(int(match.group(1))).encode()", 'character = chr(int(match.group(1))).encode("utf-8")')
+N("C14", "utf-16 text encoded with the default codec", CODF, 'match.group().decode("utf-16").encode("utf-8"),', 'match.group().decode("utf-16").encode(),')
 B("C14", "unescape decodes the whole match", JSF, "unquote_to_bytes(match.group(1)),", "unquote_to_bytes(match.group()),", "R3-provenance")
 B("C14", "UTF-16 class admits NUL first byte", CODF, 'rb"(?s)(?:[^\\x00-\\x08\\x0e-\\x1f\\x7f-\\x9f]\\x00){7,}"', 'rb"(?s)(?:[^\\x01-\\x08\\x0e-\\x1f\\x7f-\\x9f]\\x00){7,}"', "R6-utf16")
 B("C14", "UTF-16 threshold 5", CODF, 'rb"(?s)(?:[^\\x00-\\x08\\x0e-\\x1f\\x7f-\\x9f]\\x00){7,}"', 'rb"(?s)(?:[^\\x00-\\x08\\x0e-\\x1f\\x7f-\\x9f]\\x00){5,}"', "R6-utf16")
@@ -553,6 +558,16 @@ PURE = [("C10", NET, "def is_domain(domain: bytes) -> bool:"), ("C11", NET, "def
         ("C14", XMLF, "def unescape_xml(data: bytes) -> bytes:"), ("C16", SH, "def strip_carets(cmd: bytes) -> bytes:"), ("C01", SH, "def strip_carets(cmd: bytes) -> bytes:")]
 for _p, _f, _old in PURE:
     N(_p, "pure bytes helper memoised", _f, _old, "@functools.lru_cache(maxsize=4096)\n" + _old, also=[dict(file=_f, old=FUT, new=FUT_FT)])
+# the functional spelling of a cache (seed u01): ALIAS = lru_cache(...)(f) with the alias called from the decoder
+_WRAP_OLD = "@decoder\ndef find_ips(data: bytes) -> list[Node]:\n"
+_WRAP_NEW = "_parse_ip_cached = functools.lru_cache(maxsize=1024)(parse_ip)\n\n\n" + _WRAP_OLD
+_CALL_OLD = "        out.append(parse_ip(match.group()).shift(match.start()))\n"
+for _p in ("C01", "C10", "C11", "C12"):
+    B(_p, "parse_ip called through a module-level lru_cache wrapper (seed u01)", NET, _WRAP_OLD, _WRAP_NEW, "fresh-hits",
+      also=[dict(file=NET, old=_CALL_OLD, new="        out.append(_parse_ip_cached(match.group()).shift(match.start()))\n"), dict(file=NET, old=FUT, new=FUT_FT)])
+for _p in ("C01", "C10"):
+    N(_p, "pure predicate called through a module-level cache wrapper", NET, _WRAP_OLD, "_is_ip_cached = functools.cache(is_ip)\n\n\n" + _WRAP_OLD,
+      also=[dict(file=NET, old="        if not is_ip(ip):\n            continue\n        if all(byte in b\"0x.\"", new="        if not _is_ip_cached(ip):\n            continue\n        if all(byte in b\"0x.\""), dict(file=NET, old=FUT, new=FUT_FT)])
 B("C01", "memoised function takes a Node", "src/multidecoder/xor_helper.py", "def apply_xor_key(", "@functools.lru_cache(maxsize=16)\ndef apply_xor_key(", "R1-exception-escape",
   also=[dict(file="src/multidecoder/xor_helper.py", old="import regex as re\n", new="import functools\n\nimport regex as re\n")])
 
